@@ -31,6 +31,7 @@ int muggle_double_buffer_init(muggle_double_buffer_t *buf, int capacity, int non
 			if (i == 1)
 			{
 				free(buf->buf[0].datas);
+				buf->buf[0].datas = NULL;
 			}
 			return MUGGLE_ERR_MEM_ALLOC;
 		}
